@@ -115,6 +115,7 @@ class ReqM:
         self.waited_for_room = False
         self.disturbed = False             # lock/close/competing happened mid-way (C04 non-trivial)
         self.single_cancels = 0
+        self.iter_calls = 0
 
     @property
     def expected_calls(self) -> int:
@@ -123,8 +124,9 @@ class ReqM:
         return self.spec.get("n", 0)
 
     @property
-    def nc(self) -> int:
-        return self.spec.get("nc", 1)
+    def nc(self) -> Any:
+        v = self.spec.get("nc", 1)
+        return float("inf") if v == "inf" else v
 
     def ok_calls(self) -> List[CallRec]:
         return [c for c in self.calls if not c.raised]
